@@ -10,6 +10,7 @@
 import XzVerif.Lemmas.FlushStream2
 import XzVerif.Lemmas.FlushC01Props
 import XzVerif.Lemmas.E2EChunks
+import XzVerif.Lemmas.FlushTruncPLe
 
 namespace XzVerif.FlushC01
 open XzVerif XzVerif.Flush XzVerif.Lzma XzVerif.LzmaSym XzVerif.LzmaSpec XzVerif.LzmaExec XzVerif.Lzma2Enc
@@ -411,6 +412,32 @@ theorem ClosedCh.decodes {E : Env St} {dictSize checkId : Nat} {emitted data : B
   refine ⟨bytes ++ [0], by simpa using he, by simpa using hc, by simpa using hcm, hum, ?_⟩
   intro s cap hs1 hs2 hcap
   have := chunkInvP_decodes s hs2 p0 hp0 (hci.mono hs1) hun cap (by rw [hh]; exact hcap)
+  rw [hh] at this
+  simpa using this
+
+/-- `chunkInvP_decodes` with the output capacity equal to the data length allowed -/
+theorem chunkInvP_decodes_le (dictSize : Nat) (hd : dictSize ≤ 4294967295) (p0 : Flush.Props) (hp : p0.valid = true) {sw : Bool}
+    {l : L2 St} {bytes : Bytes} (h : ChunkInvP sw p0 dictSize l bytes) (hun : l.unenc = []) (cap : Nat) (hcap : l.hist.length ≤ cap) :
+    Lzma2.lzma2Decode dictSize (bytes ++ [0]) [] cap = { ret := .streamEnd, out := l.hist, consumed := bytes.length + 1 } := by
+  have hbuf : (hl (ByteArray.mk l.hist.toArray)).take (l.hist.length + l.unenc.length) = l.hist ++ l.unenc := by
+    rw [hl_mk, hun]; simp
+  have hch := h _ hbuf
+  have hsz : (ByteArray.mk l.hist.toArray).size = l.hist.length := by rw [← hl_length, hl_mk]
+  have := lzma2Decode_of_chunksP_le (toProps p0) (propsOk_of_valid hp) dictSize hd (ByteArray.mk l.hist.toArray) sw bytes _ _ hch
+    (by simp [cfgOfL2, hsz]) cap (by rw [hsz]; exact hcap)
+  simpa [hl_mk] using this
+
+/-- `ClosedCh.decodes` in the form the container grammar needs (capacity ≥ data length, Compressed Data not empty) -/
+theorem ClosedCh.decodes_le {E : Env St} {dictSize checkId : Nat} {emitted data : Bytes} {csize : Nat}
+    (h : ClosedCh E dictSize checkId emitted data csize) :
+    ∃ comp, emitted = comp ++ blockTail E checkId comp.length data ∧ csize = comp.length ∧ 1 ≤ comp.length ∧
+      comp.length ≤ COMPRESSED_SIZE_MAX ∧ data.length ≤ Vli.VLI_MAX ∧
+      ∀ s cap, dictSize ≤ s → s ≤ 4294967295 → data.length ≤ cap →
+        Lzma2.lzma2Decode s comp [] cap = { ret := .streamEnd, out := data, consumed := comp.length } := by
+  obtain ⟨bytes, l, sw, p0, he, hc, hcm, hum, hp0, hci, hun, hh⟩ := h
+  refine ⟨bytes ++ [0], by simpa using he, by simpa using hc, by simp, by simpa using hcm, hum, ?_⟩
+  intro s cap hs1 hs2 hcap
+  have := chunkInvP_decodes_le s hs2 p0 hp0 (hci.mono hs1) hun cap (by rw [hh]; exact hcap)
   rw [hh] at this
   simpa using this
 
